@@ -208,10 +208,33 @@ where
         }
     }
     world.delete_entities(&dead).unwrap();
-    // a few deferred creations (the entities mask is alive | raised); they have no components
+    // a few deferred creations (the entities mask is alive | raised), with components per the
+    // same patterns, and a few deferred deletions (still alive until the next maintain)
     for _ in 0..c.unmerged {
         let e = world.entities().create();
         alive.insert(e.id(), e);
+        let i = e.id();
+        if c.a_pat.has(i, c.seed ^ 1) {
+            let (v, id) = A::make(1000 + i as i64);
+            world.write_storage::<A>().insert(e, v).unwrap();
+            a.insert(i, (id, if A::KIND.zst() { 0 } else { 1000 + i as i64 }));
+        }
+        if c.xd_pat.has(i, c.seed ^ 2) {
+            let (v, id) = XDense::make(2000 + i as i64);
+            world.write_storage::<XDense>().insert(e, v).unwrap();
+            xd.insert(i, (id, 2000 + i as i64));
+        }
+        if c.xb_pat.has(i, c.seed ^ 4) {
+            let (v, id) = XBTree::make(4000 + i as i64);
+            world.write_storage::<XBTree>().insert(e, v).unwrap();
+            xb.insert(i, (id, 4000 + i as i64));
+        }
+    }
+    if c.unmerged > 0 {
+        let victims: Vec<Entity> = alive.values().copied().take(c.unmerged as usize).collect();
+        for e in victims {
+            let _ = world.entities().delete(e);
+        }
     }
     let mut bits = BTreeSet::new();
     let mut bitset = BitSet::new();
@@ -863,6 +886,7 @@ pub const RO_KINDS: [(Wrap, Inner); 12] = [
 ];
 
 pub fn run_case(c: &JCase) -> RunOut {
+    crate::util::probe_mark(&props_for(c.shape));
     let ro = matches!(c.shape, Shape::ReadOnly | Shape::RestrictRead);
     use Inner::*;
     use Wrap::*;
